@@ -67,11 +67,21 @@ Definition japp (D : sdb) (e : jentry) : sdb :=
         (logs D).
 Definition set_obj (D : sdb) (a : N) (o : obj) : sdb := mksdb (<[a := o]> (objs D)) (journal D) (dirties D) (logs D).
 
+(** account nonce and "has code" are kept as two pseudo storage slots (negative keys, never used by programs), so
+    that SetNonce / SetCode are journalled, reverted and flushed by the storage machinery: the nonce slot holds
+    the number of CREATEs the contract has made (real nonce - 1 for a contract) *)
+Definition NONCE_SLOT : Z := -1.
+Definition CODE_SLOT : Z := -2.
+(** a freshly loaded object: balance, nonce and code hash are read from the keeper at that moment and stay in the
+    object (SetAccount writes them back at every commit, also after the account was deleted in between) *)
+Definition clean_obj (W : world) (a : N) : obj :=
+  mkobj (zg (bank W) a) ∅
+        (<[NONCE_SLOT := zg (store W) (a, NONCE_SLOT)]> (<[CODE_SLOT := zg (store W) (a, CODE_SLOT)]> ∅)) ∅ false.
 (** getStateObject: live object, else load nonce/code/balance from the keeper *)
 Definition load (W : world) (D : sdb) (a : N) : sdb :=
   match objs D !! a with
   | Some _ => D
-  | None => if bool_decide (a ∈ wexists W) then set_obj D a (mkobj (zg (bank W) a) ∅ ∅ ∅ false) else D
+  | None => if bool_decide (a ∈ wexists W) then set_obj D a (clean_obj W a) else D
   end.
 (** getOrNewStateObject *)
 Definition get_or_new (W : world) (D : sdb) (a : N) : sdb :=
@@ -105,11 +115,6 @@ Definition reset_obj (D : sdb) (a : N) : sdb :=
   | None => D
   end.
 
-(** account nonce and "has code" are kept as two pseudo storage slots (negative keys, never used by programs), so
-    that SetNonce / SetCode are journalled, reverted, flushed and deleted by the storage machinery: the nonce slot
-    holds the number of CREATEs the contract has made (real nonce - 1 for a contract) *)
-Definition NONCE_SLOT : Z := -1.
-Definition CODE_SLOT : Z := -2.
 Definition read_state (W : world) (D : sdb) (a : N) (k : Z) : Z :=
   match objs D !! a with
   | Some o => match dstor o !! k with
@@ -207,7 +212,14 @@ Definition commit_one (W : world) (D : sdb) (a : N) : world * sdb * bool :=
         let W1 := mkworld (<[a := obal o]> (bank W0)) (supply W0 + delta) (wexists W0) (deleg W0) (unbond W0)
                           (wdaddr W0) (pending W0) (broken W0) (grants W0) (store W0) in
         let '(W2, o2) := commit_storage W1 a o in
-        (W2, set_obj D a o2, true)
+        (* SetAccount writes nonce and code hash as the object holds them *)
+        let rd := fun k => match dstor o2 !! k with
+                           | Some v => v
+                           | None => match ostor o2 !! k with Some c => c | None => zg (store W2) (a, k) end
+                           end in
+        (mkworld (bank W2) (supply W2) (wexists W2) (deleg W2) (unbond W2) (wdaddr W2) (pending W2) (broken W2) (grants W2)
+                 (<[(a, NONCE_SLOT) := rd NONCE_SLOT]> (<[(a, CODE_SLOT) := rd CODE_SLOT]> (store W2))),
+         set_obj D a o2, true)
   end.
 
 Fixpoint commit_list (W : world) (D : sdb) (l : list N) : world * sdb * bool :=
